@@ -210,7 +210,7 @@ ensures
         // [C03.skip_cert_signers_are_the_stored_votes]
         forall|i: int| 0 <= i < r.0@.len() ==> (#[trigger] r.0@[i]).kind() == CertKind::Skip && final(self).cert_ok(r.0@[i]),
         has_kind(r.0@, CertKind::Skip) <==> r.0@.len() == 1,
-        // [C06.events_only_when_allowed_and_once]
+        // [C06.events_only_when_allowed_and_once C05.fallback_signal_only_after_the_own_vote_and_the_condition] (C05: what Votor answers with a fallback vote)
         events_ok(old(self), final(self), r.1@),
         // [C06.completeness_invariant_is_kept] (a skip vote arriving last)
         old(self).s2n_inv(false) ==> final(self).s2n_inv(false),
@@ -422,7 +422,7 @@ ensures
         // [C03.notar_cert_signers_are_the_stored_votes]
         forall|i: int| 0 <= i < r.0@.len() ==> final(self).cert_ok(#[trigger] r.0@[i]) && r.0@[i].spec_block_hash() == Some(*block_hash)
             && (r.0@[i].kind() == CertKind::Notar || r.0@[i].kind() == CertKind::NotarFallback || r.0@[i].kind() == CertKind::FastFinal),
-        // [C06.events_only_when_allowed_and_once]
+        // [C06.events_only_when_allowed_and_once C05.fallback_signal_only_after_the_own_vote_and_the_condition] (C05: what Votor answers with a fallback vote)
         events_ok(old(self), final(self), r.1@),
         // [C06.completeness_invariant_is_kept] (a notarize vote arriving last)
         old(self).s2n_inv(false) ==> final(self).s2n_inv(false),
@@ -463,16 +463,15 @@ before `if self.epoch_info.epoch_info().is_quorum(notar_stake) && self.certifica
             assert(s1.len() <= 1);
             assert(s1.len() == 1 ==> s1[0].kind() == CertKind::NotarFallback);
         }
-before `if self.epoch_info.epoch_info().is_strong_quorum(notar_stake)`
-        let ghost s2 = new_certs@;
+before `(new_certs, votor_events, blocks_to_repair)`
+        let ghost s3 = new_certs@;
+        // the certificates before the fast-finalization check (no snapshot is taken there: a hint between the two `if`s would not
+        // survive their being chained with `else`)
+        let ghost s2 = if s3.len() > s1.len() && s3.last().kind() == CertKind::FastFinal { s3.drop_last() } else { s3 };
         proof {
             assert(s1.len() <= s2.len() <= s1.len() + 1);
             assert(forall|i: int| 0 <= i < s1.len() ==> s2[i] == s1[i]);
             assert(s2.len() == s1.len() + 1 ==> s2[s1.len() as int].kind() == CertKind::Notar);
-        }
-before `(new_certs, votor_events, blocks_to_repair)`
-        let ghost s3 = new_certs@;
-        proof {
             assert forall|g: BlockHash, e: bool| #[trigger] self.inv_b(g, e) == aft.inv_b(g, e) by {}
             assert(s2.len() <= s3.len() <= s2.len() + 1);
             assert(forall|i: int| 0 <= i < s2.len() ==> s3[i] == s2[i]);
@@ -517,7 +516,7 @@ ensures
         has_kind(r.0@, CertKind::Final) <==> Self::cert_due(old(self), final(self), vote, CertKind::Final),
         // [C03.cert_signers_are_the_stored_votes]
         forall|i: int| 0 <= i < r.0@.len() ==> final(self).cert_ok(#[trigger] r.0@[i]),
-        // [C06.events_only_when_allowed_and_once]
+        // [C06.events_only_when_allowed_and_once C05.fallback_signal_only_after_the_own_vote_and_the_condition] (C05: what Votor answers with a fallback vote)
         events_ok(old(self), final(self), r.1@),
         // [C06.completeness_invariant_is_kept] THE "as soon as" CLAUSE: whichever vote arrives - another validator's notarize or skip
         // vote, or the node's own - afterwards every block whose conditions hold has had its signal, and every block that still
@@ -710,7 +709,7 @@ ensures
         final(self).slot == old(self).slot,
         final(self).epoch_info == old(self).epoch_info,
         old(self).sent_safe_to_notar@.subset_of(final(self).sent_safe_to_notar@),
-        // [C06.events_only_when_allowed_and_once]
+        // [C06.events_only_when_allowed_and_once C05.fallback_signal_only_after_the_own_vote_and_the_condition] (C05: what Votor answers with a fallback vote)
         r matches Some(Either::Left(e)) ==> e == PoolEvent::SafeToNotar((final(self).slot, hash))
             && !old(self).sent_safe_to_notar@.contains(hash) && final(self).sent_safe_to_notar@.contains(hash) && final(self).spec_s2n(hash),
         // [C06.s2n_as_soon_as_parent_certified]
